@@ -141,3 +141,24 @@ def run(F, R):
         R.check(not uses, "R14.4", "syntax-error-position-from-pest-line_col", b.where(), "positions recomputed",
                 "Error::Syntax positions are copied from pest's line_col, which does not treat a lone carriage return as a line terminator: "
                 "a syntax error after `a\\rb` is reported on line 1")
+
+    R.rule("R14.6", "who-may-write the position state: the fields of PositionCalculator (pos, line, column, input) are written only by PositionCalculator::new and "
+                    "::step — the one place where every character between two tokens is classified as line terminator or not; any other writer (a `skip`, a bulk "
+                    "column adjustment) can advance the column without counting the line terminators it passes")
+    writers = {}
+    for b in F.bodies.values():
+        if not b.defp.startswith("async_graphql_parser::"):
+            continue
+        for bb, st in b.all_stmts():
+            lhs = st[0]
+            fields = [f for f in lhs[1:] if isinstance(f, str) and f in (".pos", ".line", ".column", ".input")]
+            if fields and "PositionCalculator" in b.locals[lhs[0]]:
+                writers.setdefault(b.defp, set()).update(fields)
+        for (bb, r, line) in [(a[0], a[1], a[2]) for a in __import__("common").find_aggs(b, r"pos::PositionCalculator$")]:
+            writers.setdefault(b.defp, set()).add("construct")
+    ok_writers = re.compile(r"^async_graphql_parser::pos::\{impl#\d+\}::(new|step)$")
+    R.floor("R14.6", "bodies writing PositionCalculator state", len(writers), 2)
+    for defp, fs in sorted(writers.items()):
+        key = re.sub(r"\{impl#\d+\}", "{impl}", defp.replace("async_graphql_parser::", ""))
+        R.check(ok_writers.match(defp) is not None, "R14.6", "position-state-written-by:" + key, F.get(defp).where(), "writes %s" % sorted(fs),
+                "%s writes PositionCalculator.%s outside new/step: positions after the skipped text no longer count the line terminators inside it" % (defp.split("::")[-1], sorted(fs)))
